@@ -10,6 +10,7 @@ import (
 	"net/http"
 	"os"
 	"path/filepath"
+	"strings"
 	"sync"
 	"syscall"
 	"time"
@@ -475,6 +476,9 @@ func crashOne(scratch string, seq int, rng *rand.Rand, cs CrashCase, kind, write
 	}
 	// the key under test
 	n := []int{2<<20 + 4097, 1<<20 + 1, 70000, 3 << 20}[rng.Intn(4)]
+	if strings.Contains(wh.name, "chunk boundary") {
+		n = []int{2<<20 + 4097, 3 << 20}[rng.Intn(2)] // a stored file of several chunks: there is a boundary to stop at
+	}
 	if kind != "cas" {
 		n = 300 + rng.Intn(3000)
 	}
